@@ -30,6 +30,10 @@ def run(tier, seed, replay=None):
         decay = rng.random() < 0.4 and not singleton
         eps = rng.choice([1e-12, 1e-10, 1e-8, 1e-6, 1e-4, 1e-2, 1e-1])
         rk = (lambda: [1] + [rng.randint(2, 3) for _ in range(d - 1)] + [1]) if singleton else (lambda: solverkit.ranks(rng, d, rng.choice([1, 2, 3, 4])))
+        if i in (4, 5, 6, 7, 8, 9):              # engineered: AMEn products of operands whose cores all have a large / small scale
+            routine = "amen_mv" if i % 2 == 0 else "amen_mm"; d = rng.choice([3, 4]); N = [rng.choice([2, 3, 4]) for _ in range(d)]; M = [rng.choice([2, 3]) for _ in range(d)]
+            singleton = False; cplx = False; dtype = torch.float64; eps = rng.choice([1e-4, 1e-6]); decay = True      # decaying spectra: the truncation really cuts something
+            rk = lambda: solverkit.ranks(rng, d, rng.choice([3, 4]))
         uneven = i < (4 if tier == "quick" else 60)          # bonds that converge at different sweeps: high product ranks inside, a low-rank last bond
         if uneven:
             routine = "dmrg_hadamard" if i % 2 == 0 else "fast_matvec"
@@ -60,9 +64,40 @@ def run(tier, seed, replay=None):
             ops = {"A": A, "B": B}; exact = A @ B
             call = lambda: torchtt.amen_mm(A, B, eps=eps, X0=guess, nswp=40)
             want_N, want_M = N, M
+        nswp = 40
+        if routine in ("fast_matvec", "dmrg_hadamard") and d >= 2 and not uneven and rng.random() < 0.12:
+            # a warm start (the exact product) with a sweep budget that is used up: the last sweep's no-kick branch decides the result
+            guess = exact.round(1e-13); nswp = rng.choice([1, 2, 3]); desc["nswp"] = nswp
+            if routine == "fast_matvec": call = (lambda A=A, x=x, g=guess, nswp=nswp: A.fast_matvec(x, eps=eps, initial=g, nswp=nswp, use_cpp=False))
+            else: call = (lambda x=x, y=y, g=guess, nswp=nswp: torchtt.dmrg_hadamard(x, y, g, eps=eps, nswp=nswp))
         if guess is not None: ops["guess"] = guess
         desc["guess"] = guess is not None
-        if rng.random() < 0.3:          # the contract is relative: scale one operand by a power of ten
+        single = False
+        if routine in ("fast_matvec", "dmrg_hadamard") and nswp == 40 and not uneven and rng.random() < 0.12:
+            # single-precision operands: a tolerance below what the dtype can certify (the default eps included) makes the sweeps run out
+            single = True
+            sdt = torch.complex64 if cplx else torch.float32
+            cast = lambda t: torchtt.TT([c.to(sdt) for c in t.cores])
+            ops = {k_: cast(v_) for k_, v_ in ops.items()}
+            eps = rng.choice([1e-12, 1e-10, 1e-4]); desc["eps"] = eps; desc["dtype"] = str(sdt); dtype = sdt
+            if routine == "fast_matvec":
+                A, x = ops["A"], ops["x"]; exact = A @ x
+                call = (lambda A=A, x=x, g=ops.get("guess"): A.fast_matvec(x, eps=eps, initial=g, nswp=40, use_cpp=False))
+            else:
+                x, y = ops["x"], ops["y"]; exact = x * y
+                call = (lambda x=x, y=y, g=ops.get("guess"): torchtt.dmrg_hadamard(x, y, g, eps=eps, nswp=40))
+        force_cs = (not uneven) and i in (4, 5, 6, 7, 8, 9)
+        if routine in ("amen_mv", "amen_mm") and (rng.random() < 0.2 or force_cs):
+            # every core of both operands scaled (cores of norm ~100 or ~0.01): the accuracy is relative to the product, whatever the cores' scale
+            cs = rng.choice([100.0, 1000.0, 0.01]); desc["core_scale"] = cs
+            sc_all = lambda t: torchtt.TT([c * cs for c in t.cores])
+            if routine == "amen_mv":
+                A = sc_all(ops["A"]); x = sc_all(ops["x"]); ops["A"], ops["x"] = A, x; exact = A @ x
+                call = (lambda A=A, x=x, g=ops.get("guess"): torchtt.amen_mv(A, x, eps=eps, x0=g, nswp=40))
+            else:
+                A = sc_all(ops["A"]); B = sc_all(ops["B"]); ops["A"], ops["B"] = A, B; exact = A @ B
+                call = (lambda A=A, B=B, g=ops.get("guess"): torchtt.amen_mm(A, B, eps=eps, X0=g, nswp=40))
+        if rng.random() < 0.3 and not (single or nswp != 40 or "core_scale" in desc):          # the contract is relative: scale one operand by a power of ten
             sc = rng.choice([1e-6, 1e-3, 1e3, 1e6]); desc["scale"] = sc
             k0 = list(ops.keys())[-1] if "guess" not in ops else list(ops.keys())[-2]
             ops[k0] = ops[k0] * sc
@@ -72,7 +107,7 @@ def run(tier, seed, replay=None):
                 y = ops["y"]; exact = x * y
             else:
                 B = ops["B"]; exact = A @ B
-        kd = routine + ("+guess" if guess is not None else "") + (" singleton-mode" if singleton else "") + (" uneven-bonds" if uneven else "")
+        kd = routine + ("+guess" if guess is not None else "") + (" singleton-mode" if singleton else "") + (" uneven-bonds" if uneven else "") + (" nswp<=3" if nswp != 40 else "") + (" single-precision" if single else "") + (" cores-scaled" if "core_scale" in desc else "")
         dist[kd] = dist.get(kd, 0) + 1
         if i % 20 == 0 and len(samples) < 5: samples.append(desc)
         snaps = {k: history.Snap(v) for k, v in ops.items()}
@@ -88,7 +123,8 @@ def run(tier, seed, replay=None):
             V.fail("%s: result has the wrong shape / is ill formed" % routine, dict(desc, got_N=[int(v) for v in y_.N], wf=wf)); continue
         ef = exact.full(); nrm = float(ef.abs().pow(2).sum().sqrt())
         err = float((y_.full() - ef).abs().pow(2).sum().sqrt())
-        if err > CONST * eps * nrm + 1e-11 * nrm + 1e-300:
+        floor = 2e-5 if single else 1e-11            # what the dtype can certify
+        if err > CONST * eps * nrm + floor * nrm + 1e-300:
             V.fail("%s: error exceeds %g*eps" % (routine, CONST), dict(desc, rel_err=err / max(nrm, 1e-300), ranks=[int(r) for r in y_.R]))
         if y_.cores[0].dtype != dtype: V.fail("%s: dtype changed" % routine, desc)
         # decisions of the DMRG routines: threshold and rank against the model
